@@ -315,3 +315,78 @@ Proof.
   apply (matches_increasing node_hash (m_transactions m) H 0 t); [|exact Hshape].
   apply width_pos. lia.
 Qed.
+
+(* ---------- the same statements on the domain where the model is the code ([msg_in_domain], see
+   Merkle.v "the domain on which this file is the code"); these are what Props/C12.v states ---------- *)
+Section Domain.
+Variable node_hash : hash -> hash -> hash.
+
+Theorem extract_sound_dom maxtx m root ms :
+  maxtx < 2 ^ 31 -> msg_in_domain m ->
+  extract node_hash maxtx m = Ok (root, ms) ->
+  1 <= m_transactions m <= maxtx /\
+  (length (m_hashes m) <= N.to_nat (m_transactions m))%nat /\
+  exists H t pad,
+    accepted_as node_hash m H t pad root ms /\
+    Forall (fun ph => has_merkle_path node_hash (m_transactions m) H root (fst ph) (snd ph)) ms.
+Proof. intros Hmax _. exact (extract_sound node_hash maxtx m root ms Hmax). Qed.
+
+Theorem extract_matches_increasing_dom maxtx m root ms :
+  maxtx < 2 ^ 31 -> msg_in_domain m ->
+  extract node_hash maxtx m = Ok (root, ms) -> StronglySorted pos_lt ms.
+Proof. intros Hmax _. exact (extract_matches_increasing node_hash maxtx m root ms Hmax). Qed.
+
+Theorem extract_rejects_more_hashes_than_transactions_dom maxtx : maxtx < 2 ^ 31 -> forall m, msg_in_domain m ->
+  (N.to_nat (m_transactions m) < length (m_hashes m))%nat -> forall r, extract node_hash maxtx m <> Ok r.
+Proof. intros Hmax m _. exact (extract_rejects_more_hashes_than_transactions node_hash maxtx Hmax m). Qed.
+
+Theorem extract_rejects_fewer_bits_than_hashes_dom maxtx : maxtx < 2 ^ 31 -> forall m, msg_in_domain m ->
+  (8 * length (m_flags m) < length (m_hashes m))%nat -> forall r, extract node_hash maxtx m <> Ok r.
+Proof. intros Hmax m _. exact (extract_rejects_fewer_bits_than_hashes node_hash maxtx Hmax m). Qed.
+
+Theorem extract_rejects_bits_exhausted_dom maxtx : maxtx < 2 ^ 31 -> forall m, msg_in_domain m -> forall H,
+  is_height (m_transactions m) H -> forall t, shape (m_transactions m) H 0 t ->
+  forall more, map b2n (pmt_flags t) = bits_of_flags (m_flags m) ++ more -> more <> [] ->
+  forall r, extract node_hash maxtx m <> Ok r.
+Proof. intros Hmax m _. exact (extract_rejects_bits_exhausted node_hash maxtx Hmax m). Qed.
+
+Theorem extract_rejects_hashes_exhausted_dom maxtx : maxtx < 2 ^ 31 -> forall m, msg_in_domain m -> forall H,
+  is_height (m_transactions m) H -> forall t, shape (m_transactions m) H 0 t ->
+  forall rest, bits_of_flags (m_flags m) = map b2n (pmt_flags t) ++ rest ->
+  (length (m_hashes m) < length (pmt_hashes t))%nat ->
+  forall r, extract node_hash maxtx m <> Ok r.
+Proof. intros Hmax m _. exact (extract_rejects_hashes_exhausted node_hash maxtx Hmax m). Qed.
+
+Theorem extract_rejects_unused_hash_dom maxtx : maxtx < 2 ^ 31 -> forall m, msg_in_domain m -> forall H,
+  is_height (m_transactions m) H -> forall t, shape (m_transactions m) H 0 t ->
+  forall rest, bits_of_flags (m_flags m) = map b2n (pmt_flags t) ++ rest ->
+  (length (pmt_hashes t) < length (m_hashes m))%nat ->
+  forall r, extract node_hash maxtx m <> Ok r.
+Proof. intros Hmax m _. exact (extract_rejects_unused_hash node_hash maxtx Hmax m). Qed.
+
+Theorem extract_rejects_unused_flag_byte_dom maxtx : maxtx < 2 ^ 31 -> forall m, msg_in_domain m -> forall H,
+  is_height (m_transactions m) H -> forall t, shape (m_transactions m) H 0 t ->
+  forall rest, bits_of_flags (m_flags m) = map b2n (pmt_flags t) ++ rest ->
+  (8 <= length rest)%nat ->
+  forall r, extract node_hash maxtx m <> Ok r.
+Proof. intros Hmax m _. exact (extract_rejects_unused_flag_byte node_hash maxtx Hmax m). Qed.
+
+Theorem extract_rejects_equal_children_dom maxtx : maxtx < 2 ^ 31 -> forall m, msg_in_domain m -> forall H,
+  is_height (m_transactions m) H -> forall t, shape (m_transactions m) H 0 t ->
+  forall restb resth,
+  bits_of_flags (m_flags m) = map b2n (pmt_flags t) ++ restb ->
+  m_hashes m = pmt_hashes t ++ resth ->
+  ~ no_equal_children node_hash t ->
+  forall r, extract node_hash maxtx m <> Ok r.
+Proof. intros Hmax m _. exact (extract_rejects_equal_children node_hash maxtx Hmax m). Qed.
+
+Theorem extract_cost_depth_dom maxtx m : msg_in_domain m ->
+  (extract_calls node_hash maxtx m <= 2 * (8 * length (m_flags m)) + 1)%nat /\
+  (forall n k, maxtx < 2 ^ 31 -> n <= maxtx -> maxtx <= 2 ^ N.of_nat k ->
+     exists H : nat, height_loop (pb_tree_width n) 1 height_fuel 0 = Ok (N.of_nat H) /\ (H <= k)%nat).
+Proof. intros _. exact (extract_cost_depth node_hash maxtx m). Qed.
+
+Theorem extract_no_panic_dom maxtx m : msg_in_domain m -> is_panic (extract node_hash maxtx m) = false.
+Proof. intros _. exact (extract_no_panic node_hash maxtx m). Qed.
+
+End Domain.
